@@ -29,11 +29,12 @@ for n in sorted(os.listdir(f'{V}/seeded')):
     summ=(meta.get('summary') or '').split(': ',1)
     one=(meta.get('summary') or '')[:170].replace('|','/').replace('\n',' ')
     r=res.get(n)
+    if meta.get('superseded'):
+        res.pop(n,None)
+        srows.append(f"| {n} | {one}… | superseded | {meta['superseded'][:260]} |")
+        continue
     if not r:
-        if meta.get('superseded'):
-            srows.append(f"| {n} | {one}… | superseded | {meta['superseded'][:260]} |")
-        else:
-            srows.append(f"| {n} | {one}… | not run | |")
+        srows.append(f"| {n} | {one}… | not run | |")
         continue
     if r[0]=='1':
         ob=re.sub(r'^replayed=\d+ ','',r[2]).split('.json')[0].lstrip('_')
@@ -42,7 +43,7 @@ for n in sorted(os.listdir(f'{V}/seeded')):
         srows.append(f"| {n} | {one}… | **missed** | {missing.get(n,'')} |")
 stable='\n'.join(srows)
 caught=sum(1 for v in res.values() if v[0]=='1')
-stable+=f"\n\n{caught} of {len(res)} seeded changes are caught by the quick check of their property."
+stable+=f"\n\n{caught} of {len(res)} applicable seeded changes are caught by the quick check of their property (superseded ones not counted)."
 kf=json.load(open(f'{V}/known_findings.json'))
 frows=["| commit | property | obligation that failed before the repair | defect |","|--------|----------|------------------------|--------|"]
 for k in kf:
